@@ -78,7 +78,7 @@ Proof.
   rewrite (index_any_nl_app s t rest Hl Ht). cbv iota beta.
   rewrite firstn_app_exact.
   rewrite (index_pos_none c_lbrace s Hb), (index_pos_none c_semi s Hs), (index_pos_none c_rbrace s Hr).
-  reflexivity.
+  destruct (is_comment s); reflexivity.
 Qed.
 
 (* ... at the very end of the text (no final newline) *)
@@ -89,23 +89,23 @@ Proof.
   rewrite (index_any_nl_none s Hl). cbv iota beta.
   rewrite firstn_all.
   rewrite (index_pos_none c_lbrace s Hb), (index_pos_none c_semi s Hs), (index_pos_none c_rbrace s Hr).
-  reflexivity.
+  destruct (is_comment s); reflexivity.
 Qed.
 
 (* ... followed by `;` and anything without braces up to the end of the line *)
 Theorem stmt_cut_at_semicolon s tl t rest :
-  stmt_line s -> has_prefix (bs "for") s = false ->
+  stmt_line s -> has_prefix (bs "for") s = false -> is_comment (s ++ c_semi :: tl) = false ->
   one_line tl -> no_byte c_lbrace tl -> (t = c_nl \/ t = c_cr) ->
   next_ctl (s ++ c_semi :: tl ++ t :: rest) 0 = Some (s, 0).
 Proof.
-  intros ([c [r [Es Hc]]] & Hl & Hs & Hb & Hr) Hf Htl Htb Ht. unfold next_ctl. cbn [skipn].
+  intros ([c [r [Es Hc]]] & Hl & Hs & Hb & Hr) Hf Hcm Htl Htb Ht. unfold next_ctl. cbn [skipn].
   rewrite Es at 1. cbn [app]. rewrite skip_fmt_head by exact Hc. cbn [skipn].
   assert (L1 : one_line (s ++ c_semi :: tl)).
   { destruct Hl as [A B]. destruct Htl as [C D]. split; intros x Hx; apply in_app_or in Hx;
       (destruct Hx as [Hx|[Hx|Hx]]; [auto| subst x; reflexivity | auto]). }
   replace (s ++ c_semi :: tl ++ t :: rest) with ((s ++ c_semi :: tl) ++ t :: rest) by (rewrite <- app_assoc; reflexivity).
   rewrite (index_any_nl_app _ t rest L1 Ht). cbv iota beta.
-  rewrite firstn_app_exact.
+  rewrite firstn_app_exact. rewrite Hcm.
   assert (Nb : no_byte c_lbrace (s ++ c_semi :: tl)).
   { intros x Hx. apply in_app_or in Hx. destruct Hx as [Hx|[Hx|Hx]]; [auto|subst x; reflexivity|auto]. }
   rewrite (index_pos_none c_lbrace _ Nb).
@@ -137,17 +137,18 @@ Qed.
    dot), whatever follows on the line *)
 Theorem header_cut_at_brace h tl t rest :
   (exists c r, h = c :: r /\ is_fmt c = false) -> h <> [] -> last h 0%N <> c_dot ->
+  is_comment (h ++ c_lbrace :: tl) = false ->
   one_line h -> no_byte c_lbrace h -> one_line tl -> (t = c_nl \/ t = c_cr) ->
   next_ctl (h ++ c_lbrace :: tl ++ t :: rest) 0 = Some (h ++ [c_lbrace], 0).
 Proof.
-  intros [c [r [Es Hc]]] Hne Hlast Hl Hb Htl Ht. unfold next_ctl. cbn [skipn].
+  intros [c [r [Es Hc]]] Hne Hlast Hcm Hl Hb Htl Ht. unfold next_ctl. cbn [skipn].
   rewrite Es at 1. cbn [app]. rewrite skip_fmt_head by exact Hc. cbn [skipn].
   assert (L1 : one_line (h ++ c_lbrace :: tl)).
   { destruct Hl as [A B]. destruct Htl as [C D]. split; intros x Hx; apply in_app_or in Hx;
       (destruct Hx as [Hx|[Hx|Hx]]; [auto| subst x; reflexivity | auto]). }
   replace (h ++ c_lbrace :: tl ++ t :: rest) with ((h ++ c_lbrace :: tl) ++ t :: rest) by (rewrite <- app_assoc; reflexivity).
   rewrite (index_any_nl_app _ t rest L1 Ht). cbv iota beta.
-  rewrite firstn_app_exact.
+  rewrite firstn_app_exact. rewrite Hcm.
   unfold index_pos. rewrite (index_byte_app c_lbrace h tl Hb).
   destruct h as [|c0 r0]; [congruence|]. cbn [List.length].
   replace (S (List.length r0) - 1) with (List.length r0) by lia.
@@ -159,4 +160,24 @@ Proof.
     by (rewrite <- !app_assoc; reflexivity).
   replace (S (S (List.length r0))) with (List.length ((c0 :: r0) ++ [c_lbrace])) by (rewrite app_length; simpl; lia).
   rewrite firstn_app_exact. reflexivity.
+Qed.
+
+(* D45: a whole-line comment is opaque -- whatever it contains (braces,
+   semicolons, keywords), the whole line is one control line, which processCtl
+   skips *)
+Theorem comment_line_is_opaque s t rest :
+  is_comment s = true -> one_line s -> (t = c_nl \/ t = c_cr) ->
+  next_ctl (s ++ t :: rest) 0 = Some (s, 0).
+Proof.
+  intros Hc Hl Ht. unfold next_ctl. cbn [skipn].
+  destruct s as [|c r]; [discriminate|].
+  assert (Hf : is_fmt c = false).
+  { unfold is_comment in Hc. apply orb_true_iff in Hc. destruct Hc as [Hc|Hc].
+    - apply N.eqb_eq in Hc. subst c. reflexivity.
+    - change (bs "//") with [47%N; 47%N] in Hc. cbn [has_prefix] in Hc.
+      apply andb_true_iff in Hc. destruct Hc as [Hc _]. apply N.eqb_eq in Hc. subst c. reflexivity. }
+  cbn [app]. rewrite skip_fmt_head by exact Hf. cbn [skipn].
+  change (c :: r ++ t :: rest) with ((c :: r) ++ t :: rest).
+  rewrite (index_any_nl_app (c :: r) t rest Hl Ht). cbv iota beta.
+  rewrite firstn_app_exact. rewrite Hc. reflexivity.
 Qed.
